@@ -156,10 +156,10 @@ Proof.
   - rewrite X. destruct (Nat.eqb_spec 0 j) as [<-|N]; congruence.
   - rewrite X. destruct (Nat.eqb_spec (length ns - 1) j) as [E|N]; [rewrite A3, <- E|]; exact La.
   - intros i Hi. rewrite !X. specialize (Lk i Hi).
-    destruct (Nat.eqb_spec i j) as [->|N1]; destruct (Nat.eqb_spec (S i) j) as [E|N2]; try lia; try congruence.
-    rewrite A1, <- E. exact Lk.
-  - intros i Hi. rewrite X. specialize (Dm i Hi). destruct (Nat.eqb_spec i j) as [->|N1]; [|exact Dm].
-    rewrite A2, A3. tauto.
+    destruct (Nat.eqb_spec i j) as [E1|N1]; destruct (Nat.eqb_spec (S i) j) as [E|N2]; try lia.
+    all: try (rewrite A3, <- E1; exact Lk). all: try (rewrite A1, <- E; exact Lk). all: exact Lk.
+  - intros i Hi. rewrite X. specialize (Dm i Hi). destruct (Nat.eqb_spec i j) as [E1|N1]; [|exact Dm].
+    subst i. rewrite A2, A3. tauto.
 Qed.
 (* a map that keeps the dimensions of every core *)
 Lemma wfI_map ns Zs (f : core T -> core T) : wfI ns Zs ->
@@ -176,3 +176,261 @@ Proof.
   - intros i Hi. rewrite X by lia. destruct (Hf (nth i Zs D)) as (_ & -> & -> & W). specialize (Dm i Hi). tauto.
 Qed.
 End IndexP.
+
+(* ---------- orthogonalize, truncate, svd: shapes ---------- *)
+Section SweepP.
+Context {T : Type} (K : ops T).
+Implicit Types (Y Zs : list (core T)).
+Local Notation D := (@dcore T).
+Variable svdo : nat -> mat T -> mat T * list T * mat T.
+Variable eigh : nat -> mat T -> list T * mat T.
+Variable argsort : nat -> list T -> list nat.
+Variable qr : nat -> mat T -> mat T * mat T.
+Variable rq : nat -> mat T -> mat T * mat T.
+Variable ilog2 : nat -> T -> Z.
+Variable pow2frac : Z -> nat -> T.
+
+Lemma tcore_stab_dims k G p thr :
+  cr1 (fst (Transformation.core_stab K ilog2 k G p thr)) = cr1 G /\
+  cn (fst (Transformation.core_stab K ilog2 k G p thr)) = cn G /\
+  cr2 (fst (Transformation.core_stab K ilog2 k G p thr)) = cr2 G /\
+  (wfdat G -> wfdat (fst (Transformation.core_stab K ilog2 k G p thr))).
+Proof.
+  unfold Transformation.core_stab. destruct (oleb K (cmax K G) thr); cbn [fst]; (split; [|split; [|split]]); auto.
+  intros _. apply wfdat_mk.
+Qed.
+
+Section WithContracts.
+Hypothesis Hqr : qr_shape qr.
+Hypothesis Hrq : rq_shape rq.
+
+Lemma orth_left_wf ns Zs i : wfI ns Zs -> S i < length ns ->
+  exists Zs', orth_left K qr Zs i = Ok Zs' /\ wfI ns Zs'.
+Proof.
+  intros W Hi. pose proof W as (L & P & F & La & Lk & Dm). unfold orth_left.
+  destruct (Nat.leb_spec (length Zs - 1) i) as [H|_]; [lia|].
+  set (G1 := nth i Zs D). set (G2 := nth (S i) Zs D).
+  destruct (Dm i ltac:(lia)) as (d1 & d2 & d3 & d4). fold G1 in d1, d2, d4.
+  pose proof (wfI_cr1_pos ns Zs i W ltac:(lia)) as d5. fold G1 in d5.
+  destruct (Hqr i (unfoldL K G1)) as [q1 q2]; [cbn [unfoldL mkmat mr]; nia|cbn [unfoldL mkmat mc]; lia|].
+  destruct (qr i (unfoldL K G1)) as [Q R]. cbn [fst snd] in q1, q2.
+  eexists; split; [reflexivity|].
+  apply (wfI_replace2 ns Zs _ i W Hi); rewrite ?upd_length; auto.
+  - intros m M1 M2. now nu.
+  - nu. reflexivity.
+  - nu. reflexivity.
+  - nu. cbn [foldL foldR mkcore cr1 cr2 mmul mkmat mr mc]. now rewrite q1.
+  - nu. exact q2.
+  - nu. reflexivity.
+  - nu. reflexivity.
+  - nu. apply wfdat_mk.
+  - nu. apply wfdat_mk.
+Qed.
+
+Lemma orth_right_wf ns Zs i : wfI ns Zs -> 1 <= i -> i < length ns ->
+  exists Zs', orth_right K rq Zs i = Ok Zs' /\ wfI ns Zs'.
+Proof.
+  intros W H1 Hi. pose proof W as (L & P & F & La & Lk & Dm). unfold orth_right.
+  destruct (Nat.eqb_spec i 0) as [H|_]; [lia|]. destruct (Nat.ltb_spec (length Zs - 1) i) as [H|_]; [lia|]. cbn [orb].
+  set (G2 := nth i Zs D). set (G1 := nth (i - 1) Zs D).
+  destruct (Dm i ltac:(lia)) as (d1 & d2 & d3 & d4). fold G2 in d1, d2, d4.
+  pose proof (wfI_cr1_pos ns Zs i W ltac:(lia)) as d5. fold G2 in d5.
+  destruct (Hrq i (unfoldR K G2)) as [q1 q2]; [cbn [unfoldR mkmat mr]; lia|cbn [unfoldR mkmat mc]; nia|].
+  destruct (rq i (unfoldR K G2)) as [R Q]. cbn [fst snd] in q1, q2.
+  eexists; split; [reflexivity|].
+  assert (Ei : i = S (i - 1)) by lia.
+  apply (wfI_replace2 ns Zs _ (i - 1) W); rewrite <- ?Ei; rewrite ?upd_length; auto; try lia.
+  - intros m M1 M2. now nu.
+  - nu. reflexivity.
+  - nu. reflexivity.
+  - nu. cbn [foldL foldR mkcore cr1 cr2 mmul mkmat mr mc]. exact q1.
+  - nu. cbn [foldL mkcore cr2 mmul mkmat mc]. rewrite q1. exact q2.
+  - nu. reflexivity.
+  - nu. reflexivity.
+  - nu. apply wfdat_mk.
+  - nu. apply wfdat_mk.
+Qed.
+
+Lemma orth_left_sweep_wf ns us n : forall Zs p i, wfI ns Zs -> i + n + 1 <= length ns ->
+  exists Zs' p', orth_left_sweep K qr ilog2 Zs p us i n = Ok (Zs', p') /\ wfI ns Zs'.
+Proof.
+  induction n as [|n IH]; intros Zs p i W Hn; cbn [orth_left_sweep]; [eauto|].
+  destruct (orth_left_wf ns Zs i W) as (Z1 & -> & W1); [lia|]. destruct us.
+  - pose proof (tcore_stab_dims (S i) (nth (S i) Z1 D) p (o0 K)) as (c1 & c2 & c3 & c4).
+    destruct (Transformation.core_stab K ilog2 (S i) (nth (S i) Z1 D) p (o0 K)) as [G p1]. cbn [fst] in *.
+    apply IH; [|lia]. apply wfI_replace1; auto; [lia|]. apply c4.
+    destruct W1 as (_ & _ & _ & _ & _ & Dm). apply Dm. lia.
+  - apply IH; [exact W1|lia].
+Qed.
+Lemma orth_right_sweep_wf ns us n : forall Zs p i, wfI ns Zs -> n <= i -> i < length ns ->
+  exists Zs' p', orth_right_sweep K rq ilog2 Zs p us i n = Ok (Zs', p') /\ wfI ns Zs'.
+Proof.
+  induction n as [|n IH]; intros Zs p i W Hn Hi; cbn [orth_right_sweep]; [eauto|].
+  destruct (orth_right_wf ns Zs i W) as (Z1 & -> & W1); [lia|lia|]. destruct us.
+  - pose proof (tcore_stab_dims (i - 1) (nth (i - 1) Z1 D) p (o0 K)) as (c1 & c2 & c3 & c4).
+    destruct (Transformation.core_stab K ilog2 (i - 1) (nth (i - 1) Z1 D) p (o0 K)) as [G p1]. cbn [fst] in *.
+    apply IH; [|lia|lia]. apply wfI_replace1; auto; [lia|]. apply c4.
+    destruct W1 as (_ & _ & _ & _ & _ & Dm). apply Dm. lia.
+  - apply IH; [exact W1|lia|lia].
+Qed.
+
+(* orthogonalize(Y, k, use_stab): every valid Y (d >= 1), every admissible pivot (None = d-1), both use_stab *)
+Theorem orthogonalize_wfI ns Y k us : wfI ns Y ->
+  match k with None => True | Some kz => (0 <= kz < Z.of_nat (length ns))%Z end ->
+  exists Zs p, orthogonalize K qr rq ilog2 Y k us = Ok (Zs, p) /\ wfI ns Zs.
+Proof.
+  intros W Hk. pose proof W as (L & P & _). unfold orthogonalize. rewrite L.
+  set (kz := match k with None => (Z.of_nat (length ns) - 1)%Z | Some k0 => k0 end).
+  assert (Hkz : (0 <= kz < Z.of_nat (length ns))%Z) by (destruct k; subst kz; lia).
+  destruct (Z.ltb_spec kz 0); [lia|]. destruct (Z.ltb_spec (Z.of_nat (length ns) - 1) kz); [lia|]. cbn [orb].
+  destruct (orth_left_sweep_wf ns us (Z.to_nat kz) Y 0%Z 0 W) as (Z1 & p1 & -> & W1); [lia|].
+  apply orth_right_sweep_wf; [exact W1|lia|lia].
+Qed.
+End WithContracts.
+
+(* ---- the rank rule and the two truncated factorisations ---- *)
+Lemma rank_select_pos x e2 rcap : 1 <= rank_select K x e2 rcap.
+Proof. unfold rank_select. lia. Qed.
+Lemma rank_select_le x e2 rcap : rank_select K x e2 rcap <= Nat.max 1 (length x).
+Proof. unfold rank_select. lia. Qed.
+
+(* matrix_svd: inner dimensions agree and are >= 1, whatever eigh and argsort return *)
+Lemma matrix_svd_shape k A e rcap :
+  mc (fst (matrix_svd K eigh argsort k A e rcap)) = mr (snd (matrix_svd K eigh argsort k A e rcap)) /\
+  1 <= mc (fst (matrix_svd K eigh argsort k A e rcap)).
+Proof.
+  unfold matrix_svd. destruct (eigh k _) as [w0 U0].
+  destruct (mr A <=? mc A); cbn [fst snd mmul mtrans mtakec mkmat mr mc mcols]; split;
+    auto using rank_select_pos.
+Qed.
+Lemma matrix_skeleton_shape k A e rcap rel g : 1 <= length (snd (fst (svdo k A))) ->
+  mc (fst (matrix_skeleton K svdo k A e rcap rel g)) = mr (snd (matrix_skeleton K svdo k A e rcap rel g)) /\
+  1 <= mc (fst (matrix_skeleton K svdo k A e rcap rel g)).
+Proof.
+  unfold matrix_skeleton. destruct (svdo k A) as [[U s] V]. cbn [fst snd]. intros Hs.
+  set (q := rank_select K _ _ _).
+  assert (Hq : 1 <= q <= length s).
+  { split; [apply rank_select_pos|]. subst q. etransitivity; [apply rank_select_le|].
+    rewrite map_length. destruct rel; rewrite ?map_length; lia. }
+  assert (Lf : length (firstn q s) = q) by (rewrite firstn_length; lia).
+  destruct g; cbn [fst snd mmul mtaker mtakec mkmat mr mc diagl]; rewrite ?map_length, ?Lf; lia.
+Qed.
+
+Section Trunc.
+Hypothesis Hsvd : svd_shape svdo.
+
+Lemma trunc_sweep_wf ns e rcap is_eigh n : forall Zs k, wfI ns Zs -> n <= k -> k < length ns ->
+  wfI ns (trunc_sweep K svdo eigh argsort Zs e rcap is_eigh k n).
+Proof.
+  induction n as [|n IH]; intros Zs k W Hn Hk; cbn [trunc_sweep]; [exact W|].
+  pose proof W as (L & P & F & La & Lk & Dm).
+  set (G := nth k Zs D).
+  destruct (Dm k Hk) as (d1 & d2 & d3 & d4). fold G in d1, d2, d4.
+  pose proof (wfI_cr1_pos ns Zs k W Hk) as d5. fold G in d5.
+  assert (X : forall UV : mat T * mat T, mc (fst UV) = mr (snd UV) -> 1 <= mc (fst UV) ->
+    wfI ns (let '(U, V) := UV in
+            trunc_sweep K svdo eigh argsort
+              (upd (upd Zs k (foldR K (cn G) (cr2 G) V)) (k - 1)
+                   (core_mulR K (nth (k - 1) (upd Zs k (foldR K (cn G) (cr2 G) V)) D) U)) e rcap is_eigh (k - 1) n)).
+  { intros [U V]. cbn [fst snd]. intros E1 E2. apply IH; [|lia|lia].
+    assert (Ek : k = S (k - 1)) by lia.
+    apply (wfI_replace2 ns Zs _ (k - 1) W); rewrite <- ?Ek; rewrite ?upd_length; auto; try lia.
+    - intros m M1 M2. now nu.
+    - nu. reflexivity.
+    - nu. reflexivity.
+    - nu. cbn [core_mulR foldR mkcore cr1 cr2]. exact E1.
+    - nu. exact E2.
+    - nu. reflexivity.
+    - nu. reflexivity.
+    - nu. apply wfdat_mk.
+    - nu. apply wfdat_mk. }
+  destruct is_eigh.
+  - apply X; apply matrix_svd_shape.
+  - apply X; apply matrix_skeleton_shape; apply Hsvd; cbn [unfoldR mkmat mr mc]; nia.
+Qed.
+
+Hypothesis Hqr : qr_shape qr.
+Hypothesis Hrq : rq_shape rq.
+
+(* truncate(Y, e, r, orth, use_stab, is_eigh): every flag combination, every e and r, every valid Y with d >= 1 *)
+Theorem truncate_wfI ns Y e rcap orth us is_eigh : wfI ns Y ->
+  exists Zs, truncate K svdo eigh argsort qr rq ilog2 pow2frac Y e rcap orth us is_eigh = Ok Zs /\ wfI ns Zs.
+Proof.
+  intros W. pose proof W as (L & P & _). unfold truncate. rewrite L.
+  assert (X : forall Zs p e', wfI ns Zs -> exists Zr,
+    (let Zt := trunc_sweep K svdo eigh argsort Zs e' rcap is_eigh (length ns - 1) (length ns - 1) in
+     if us then Ok (map (fun G => mkcore (cr1 G) (cn G) (cr2 G)
+                                   (fun a i b => omul K (cget K G a i b) (pow2frac p (length ns)))) Zt)
+     else Ok Zt) = Ok Zr /\ wfI ns Zr).
+  { intros Zs p e' WZ. pose proof (trunc_sweep_wf ns e' rcap is_eigh (length ns - 1) Zs (length ns - 1) WZ) as Wt.
+    cbv zeta. destruct us; eexists; (split; [reflexivity|]).
+    - apply wfI_map; [apply Wt; lia|]. intros G. (split; [|split; [|split]]); try reflexivity. apply wfdat_mk.
+    - apply Wt; lia. }
+  destruct orth.
+  - destruct (orthogonalize_wfI Hqr Hrq ns Y (Some (Z.of_nat (length ns) - 1)%Z) us W) as (Zs & p & -> & WZ); [lia|].
+    apply X. exact WZ.
+  - apply X. exact W.
+Qed.
+End Trunc.
+
+(* ---- svd(Y_full, e, r): no contract at all on np.linalg.svd is needed for the shape ---- *)
+Lemma svd_loop_chain e rcap ns : forall k0 Zm q, ns <> [] -> 1 <= q ->
+  let Y := svd_loop K svdo k0 Zm q ns e rcap in
+  chain q Y 1 /\ shape Y = ns /\ Forall wfdat Y /\ Forall (fun G => 1 <= cr2 G) Y /\ Y <> [].
+Proof.
+  induction ns as [|k ns IH]; intros k0 Zm q Hne Hq; [contradiction|].
+  destruct ns as [|k' ns'].
+  - cbn [svd_loop]. split; [cbn; auto|]. split; [reflexivity|].
+    split; [constructor; [apply wfdat_mk|constructor]|].
+    split; [constructor; [cbn; lia|constructor]|discriminate].
+  - cbn zeta. change (svd_loop K svdo k0 Zm q (k :: k' :: ns') e rcap) with
+      (let total := (mr Zm * mc Zm)%nat in
+       let A := reshapeC K Zm (q * k) (total / (q * k)) in
+       let '(G, Zr) := matrix_skeleton K svdo k0 A e rcap false GiveR in
+       let q' := mc G in
+       mkcore q k q' (fun a i c => mget K G (a * k + i) c) :: svd_loop K svdo (S k0) Zr q' (k' :: ns') e rcap).
+    cbv zeta.
+    set (A := reshapeC K Zm (q * k) (mr Zm * mc Zm / (q * k))).
+    assert (Hm : 1 <= mc (fst (matrix_skeleton K svdo k0 A e rcap false GiveR))).
+    { unfold matrix_skeleton. destruct (svdo k0 A) as [[U s] V]. cbn [fst mtakec mkmat mc]. apply rank_select_pos. }
+    destruct (matrix_skeleton K svdo k0 A e rcap false GiveR) as [G Zr]. cbn [fst] in Hm.
+    destruct (IH (S k0) Zr (mc G) ltac:(discriminate) Hm) as (c1 & c2 & c3 & c4 & c5).
+    split; [cbn [chain mkcore cr1 cr2]; auto|]. split; [cbn [shape map mkcore cn]; f_equal; exact c2|].
+    split; [constructor; [apply wfdat_mk|exact c3]|].
+    split; [constructor; [exact Hm|exact c4]|discriminate].
+Qed.
+Theorem svd_valid ns data e rcap : ns <> [] -> Forall (fun n => 1 <= n) ns ->
+  valid ns (svd K svdo ns data e rcap).
+Proof.
+  intros Hne Hp. unfold svd.
+  destruct (svd_loop_chain e rcap ns O (mkmat 1 (fold_right Nat.mul 1 ns) (fun _ j => nth j data (o0 K))) 1 Hne (le_n 1))
+    as (c1 & c2 & c3 & c4 & c5).
+  unfold valid, tt_wf. auto 10.
+Qed.
+
+(* ---- the same theorems in the index-free vocabulary ---- *)
+Theorem orthogonalize_valid ns Y k us : qr_shape qr -> rq_shape rq -> valid ns Y ->
+  match k with None => True | Some kz => (0 <= kz < Z.of_nat (length Y))%Z end ->
+  exists Zs p, orthogonalize K qr rq ilog2 Y k us = Ok (Zs, p) /\ valid ns Zs.
+Proof.
+  intros Hq Hr V Hk. apply wfI_iff in V. pose proof V as (L & _). rewrite L in Hk.
+  destruct (orthogonalize_wfI Hq Hr ns Y k us V Hk) as (Zs & p & E & W).
+  exists Zs, p. split; [exact E|now apply wfI_iff].
+Qed.
+Theorem truncate_valid ns Y e rcap orth us is_eigh : svd_shape svdo -> qr_shape qr -> rq_shape rq -> valid ns Y ->
+  exists Zs, truncate K svdo eigh argsort qr rq ilog2 pow2frac Y e rcap orth us is_eigh = Ok Zs /\ valid ns Zs.
+Proof.
+  intros Hs Hq Hr V. apply wfI_iff in V.
+  destruct (truncate_wfI Hs Hq Hr ns Y e rcap orth us is_eigh V) as (Zs & E & W).
+  exists Zs. split; [exact E|now apply wfI_iff].
+Qed.
+End SweepP.
+
+(* svd_matrix: q >= 1 modes of size 4, for every 2^q x 2^q matrix (zero, identity, rank 1, ...) *)
+Theorem svd_matrix_valid {T} (K : ops T) svdo q A e rcap : 1 <= q ->
+  valid (repeat 4 q) (svd_matrix K svdo q A e rcap).
+Proof.
+  intros Hq. unfold svd_matrix. apply svd_valid.
+  - destruct q; [lia|discriminate].
+  - apply Forall_forall. intros n Hn. apply repeat_spec in Hn. lia.
+Qed.
